@@ -177,6 +177,50 @@ func c08Check(o *fw.Obs, sc *c08Scenario, rng *rand.Rand, class string) {
 				if len(cs) > 0 && !wantOK {
 					// wants were recorded before the refusal? the statement: refused => nothing selected
 					o.Violate("refused-but-selected/ClosedSetsFinder/"+class, "wants refused yet %d commits selected\n%s", len(cs), sc)
+					return
+				}
+				if !wantOK && ri == 0 {
+					// the session goes on with the wants that are fine (possibly none): nothing of the refused ones may
+					// be served by the later round
+					var good []int
+					ancGood := map[int]bool{}
+					for _, wt := range sc.wants {
+						if reachableFromRefs[wt] && !sc.shallow[wt] {
+							good = append(good, wt)
+							for a := range d.anc[wt] {
+								ancGood[a] = true
+							}
+						}
+					}
+					var perr2 error
+					if pn := fw.Catch(func() { _, perr2 = finder.Process(toSums(good), nil, true) }); pn != "" {
+						o.Violate("panic/ClosedSetsFinder.Process/"+class, "second round after a refusal: %s\n%s", sc, pn)
+						return
+					}
+					o.Ev("rounds_after_a_refusal", 1)
+					if perr2 != nil {
+						o.Violate("want-refused/ClosedSetsFinder/"+class, "after a refusal, the reachable and complete wants %v alone were refused too: %v\n%s", good, perr2, sc)
+						return
+					}
+					cs2, _ := finder.CommitsToSend()
+					for _, cm := range cs2 {
+						if idx, ok := d.index[string(cm.Sum)]; !ok || !ancGood[idx] {
+							o.Violate("refused-want-served-later/ClosedSetsFinder/"+class, "commit %d is selected in the round after the refusal although it is no ancestor of the accepted wants %v\n%s", idx, good, sc)
+							return
+						}
+					}
+					for a := range ancGood {
+						found := false
+						for _, cm := range cs2 {
+							if d.index[string(cm.Sum)] == a {
+								found = true
+							}
+						}
+						if !found {
+							o.Violate("ancestor-not-covered/ClosedSetsFinder/"+class, "after a refusal: ancestor %d of the accepted wants %v is not selected (no haves were given)\n%s", a, good, sc)
+							return
+						}
+					}
 				}
 				return
 			}
@@ -358,8 +402,12 @@ func c08RandScenario(rng *rand.Rand, parents [][]int) *c08Scenario {
 			sc.wants = append(sc.wants, reach[rng.Intn(len(reach))])
 		}
 	}
-	if len(sc.wants) == 2 && sc.wants[0] == sc.wants[1] {
+	if len(sc.wants) == 2 && sc.wants[0] == sc.wants[1] && rng.Intn(2) == 0 {
 		sc.wants = sc.wants[:1]
+	}
+	if rng.Intn(6) == 0 {
+		// the same want named more than once (two refs pushed to one commit, a branch and a tag on it)
+		sc.wants = append(sc.wants, sc.wants[rng.Intn(len(sc.wants))])
 	}
 	nr := 1 + rng.Intn(3)
 	for i := 0; i < nr; i++ {
